@@ -1,23 +1,63 @@
-(* C03: targets, the option fields that reach the code-shaped models, and the SPEC-SIDE description of each target's serializer
-   (`spec_ser`): the ONE wire specification applied to the target's pre-adjusted value (Spec/TargetPre.v: identity for C and C++,
-   round-half-even float16 ties for Python).  The observables of the generated code themselves are defined over the shipped
-   primitive models in Codec/ObsC03.v and PROVED equal to these in Codec/ObsC03Thm.v.  No proofs in this file. *)
+(* C03: targets, the code-generation options that reach the codec models, the classification of EVERY language option of
+   properties.yaml (tied to the regenerated option list in Codec/ObsC03Tie.v), and the SPEC-SIDE description of each target's
+   serializer (`spec_ser`): the ONE wire specification applied to the target's pre-adjusted value (Spec/TargetPre.v: identity for
+   C and C++, round-half-even float16 ties for Python).  The observables of the generated code are defined over the target-shaped
+   walkers and the shipped primitive models in Codec/ObsC03.v and PROVED equal to these in Codec/ObsC03Thm.v.  No proofs here. *)
 From Verif Require Export Wire TargetPre.
+From Coq Require Import String Ascii.
 Local Open Scope nat_scope.
 
 Inductive target : Type := TgC | TgCpp | TgPy.
 
-(* the code-generation options that select different generated code / support-library renderings in the models:
-     opt_little    target_endianness = little (memmove / direct loads rendering of nunavutSetUxx / nunavutGetU8..64) vs any|big (portable
-                   byte assembly): the `little` argument of Prims/CPrims.v;
-     opt_setzeros  C++: zero runs (alignment padding, void fields) written by bitspan::setZeros vs by setUxx(0, n): the `zv`
-                   argument of Codec/InstancesCpp.v (both renderings occur in the templates: padAndMoveToAlignment / void fields);
-     opt_asserts   enable_serialization_asserts: the epilogue assertions of the generated (de)serializers are compiled in.
-   C++ standard / allocator flavour and the variable-array container change the storage OBJECT only (std::vector vs pmr vector,
-   variant emulation); the walkers consume abstract values, so these options do not reach the models - they are covered by the
-   pairwise correspondence runs of the check, not by a theorem. *)
-Record options : Type := { opt_little : bool; opt_setzeros : bool; opt_asserts : bool }.
-Definition default_options : options := {| opt_little := false; opt_setzeros := true; opt_asserts := false |}.
+(* the real options (lang/properties.yaml, nunavut.lang.c / nunavut.lang.cpp) that select different code in the codec models *)
+Inductive endianness : Type := EndAny | EndBig | EndLittle.
+Record options : Type := {
+  target_endianness : endianness;               (* little: memmove / bulk-copy template paths + direct-load rendering of the C support *)
+  omit_float_serialization_support : bool;      (* nunavutSetF16/32/64, GetF*, Float16Pack/Unpack are not emitted *)
+  enable_serialization_asserts : bool;          (* NUNAVUT_ASSERT sites are compiled in *)
+}.
+Definition default_options : options :=
+  {| target_endianness := EndAny; omit_float_serialization_support := false; enable_serialization_asserts := false |}.
+Definition is_little (o : options) : bool := match target_endianness o with EndLittle => true | _ => false end.
+
+(* how each language option of properties.yaml is covered by C03 *)
+Inductive coverage : Type :=
+| Proved           (* a field of `options`; independence is a theorem of Properties/C03.v *)
+| ProvedGate       (* a field of `options`; decides whether the program exists; independence proved where it does *)
+| PairwiseOnly     (* does not reach the codec models (changes the storage object / declarations / support rendering only);
+                      exercised by the pairwise runs of the check under several values *)
+| NotExercised     (* neither modelled nor exercised: stated as not covered *)
+| NotCodec.        (* spelling of casts / constructor conventions: no influence on (de)serialization behaviour by construction of the
+                      templates; compiled under its default only *)
+
+Definition s2n (s : string) : list N := List.map N_of_ascii (list_ascii_of_string s).
+
+Definition c_option_coverage : list (string * coverage) :=
+  [("target_endianness", Proved); ("omit_float_serialization_support", ProvedGate); ("enable_serialization_asserts", Proved);
+   ("enable_override_variable_array_capacity", PairwiseOnly);      (* without a -D..._ARRAY_CAPACITY_ macro the emitted code differs by #ifndef wrappers only *)
+   ("cast_format", NotCodec)]%string.
+
+Definition cpp_option_coverage : list (string * coverage) :=
+  [("target_endianness", PairwiseOnly);                            (* C++: selects the getU16/32/64 / setUxx rendering inside the support header, which Prims/CppPrims.v models in one rendering *)
+   ("omit_float_serialization_support", ProvedGate); ("enable_serialization_asserts", Proved);
+   ("enable_override_variable_array_capacity", PairwiseOnly);
+   ("std", PairwiseOnly); ("std_flavor", PairwiseOnly);            (* c++14 / c++17 / c++20 / c++17-pmr are built; cetl++14-17 cannot be compiled offline *)
+   ("cast_format", NotCodec);
+   ("variable_array_type_include", NotExercised); ("variable_array_type_template", NotExercised);
+   ("variable_array_type_constructor_args", NotExercised);         (* only the std::vector / pmr vector defaults are built *)
+   ("allocator_include", PairwiseOnly); ("allocator_type", PairwiseOnly); ("allocator_is_default_constructible", PairwiseOnly);
+   ("ctor_convention", PairwiseOnly)]%string.                      (* set by the c++17-pmr flavour defaults *)
+
+(* floats anywhere in the type: with omit_float_serialization_support the generated C / C++ code for such a type does not compile *)
+Fixpoint uses_float (t : ty) : bool :=
+  match t with
+  | TPrim (PF _ _) => true
+  | TPrim _ => false
+  | TFix e _ | TVar e _ => uses_float e
+  | TComp _ fs _ => existsb uses_float fs
+  end.
+Definition buildable (tg : target) (o : options) (t : ty) : bool :=
+  match tg with TgPy => true | _ => negb (omit_float_serialization_support o && uses_float t) end.
 
 Definition target_pre (tg : target) (t : ty) (v : val) : val :=
   match tg with TgPy => py_pre t v | _ => v end.
@@ -25,6 +65,15 @@ Definition target_pre (tg : target) (t : ty) (v : val) : val :=
 (* spec-side description of T_serialize_ / serialize() / nunavut_support.serialize of target tg *)
 Definition spec_ser (tg : target) (t : ty) (v : val) (cap_bytes : nat) : res (list bool) :=
   ser_spec t (target_pre tg t v) cap_bytes.
+
+(* deserializers report (value, consumed bytes); nunavut_support.deserialize reports the value only *)
+Definition dobs : Type := res (val * option nat).
+Definition with_size (r : res (val * nat)) : dobs := match r with Ok (v, c) => Ok (v, Some c) | Err e => Err e end.
+Definition no_size (r : res val) : dobs := match r with Ok v => Ok (v, None) | Err e => Err e end.
+Definition dobs_val (r : dobs) : res val := match r with Ok (v, _) => Ok v | Err e => Err e end.
+Definition consumed_of (tg : target) (n : nat) : option nat := match tg with TgPy => None | _ => Some n end.
+Definition spec_des (tg : target) (t : ty) (bits : list bool) : dobs :=
+  match des_spec t bits with Ok (v, c) => Ok (v, consumed_of tg c) | Err e => Err e end.
 
 (* for the harness: request `pser` *)
 Definition py_ser (t : ty) (v : val) (cap_bytes : nat) : res (list bool) := spec_ser TgPy t v cap_bytes.
